@@ -31,7 +31,7 @@ CLAIM = dict(cat="proof", design="§3 C16",
         "and nearly aligned rays, periodic wraps incl. absorption right after the wrap, targets at cell-wall partial sums +- 1 ulp, 1-cell-thick grids, vacuum cells; AMR: several "
         "refinement histories to depth 5, all periodicity flags), plus an exact-rational straight-line oracle for the property on every answer of the real code. "
         "CORRESPONDENCE ONLY (exploration evidence, not proved): Octree overlap / closest searches and PointLocations closest / radius searches vs brute force. EXCLUDED: Voronoi grids "
-        "(incl. VoronoiDensityGrid::interact).",
+        "(incl. VoronoiDensityGrid::interact). PointLocations searches are also exercised with one compact corner cluster and a lattice of queries (searches that grow to their maximum range).",
    note="Positions of part (1) are lattice points at least as fine as the deepest cell; its correspondence runs on dyadic boxes where every binary64 operation of the code is exact. "
         "Traversal theorems are about exact real arithmetic; the binary64 instance is what is compared with the code (ExtrOCamlFloats extraction and the OCaml driver are trusted for the "
         "tie only); update_integrals is abstracted to the visit list + the hydrogen mean intensity (C16_cart_J_exact); get_optical_depth for HAS_HELIUM without VARIABLE_ABUNDANCES. "
